@@ -1,7 +1,8 @@
 (* C47 -- Source literal stripping is lossless and complete.
    Only statements; proofs live in Proof/P_Strip.v, the model in Model/M_Strip.v.
-   strip fixp code : the scanner strip_string_literals on a text (list of code points);
-     fixp = false: the code as it is; fixp = true: with the proposed f-string prefix repair.
+   strip fixp fixe code : the scanner strip_string_literals on a text (list of code points);
+     fixp / fixe = false: the code as it is; true: with the proposed repair of the f-string
+     prefix pattern / of the f flag carried over an empty triple-quoted literal.
    Done items lits : new_code (characters and labels Lab k) and the literals in label order. *)
 From Coq Require Import NArith List Bool.
 From CyVerif Require Import Model.M_Strip Proof.P_Strip.
@@ -10,25 +11,25 @@ Import ListNotations.
 (* termination + losslessness on items, every input text: the fuel S(length code) given by
    [strip] always suffices (never OutOfFuel), no impossible token kind is met (never Stuck),
    and replacing every label by its literal gives the input back exactly *)
-Theorem C47_terminates_and_lossless : forall fixp code,
-  exists items lits, strip fixp code = Done items lits /\ subst lits items = Some code.
+Theorem C47_terminates_and_lossless : forall fixp fixe code,
+  exists items lits, strip fixp fixe code = Done items lits /\ subst lits items = Some code.
 Proof. exact strip_total_lossless. Qed.
 Print Assumptions C47_terminates_and_lossless.
 
 (* losslessness on the text actually returned: "".join(new_code) with labels prefix+decimal+"_"
    and the dict {label: literal}; substituting back = re.sub(prefix [0-9]+ _, dict lookup).
    Stated assumption: the prefix does not occur in the input (and has no proper border). *)
-Theorem C47_text_lossless : forall fixp prefix code items lits,
+Theorem C47_text_lossless : forall fixp fixe prefix code items lits,
   borderless prefix -> ~ occurs prefix code ->
-  strip fixp code = Done items lits ->
+  strip fixp fixe code = Done items lits ->
   subst_text prefix (dict prefix lits) 0 (render prefix items) = Some code.
 Proof. exact strip_text_lossless. Qed.
 Print Assumptions C47_text_lossless.
 
 (* ... for the prefix both callers use, '__Pyx_L' *)
-Theorem C47_default_prefix_lossless : forall fixp code items lits,
+Theorem C47_default_prefix_lossless : forall fixp fixe code items lits,
   occursb default_prefix code = false ->
-  strip fixp code = Done items lits ->
+  strip fixp fixe code = Done items lits ->
   subst_text default_prefix (dict default_prefix lits) 0 (render default_prefix items) = Some code.
 Proof. exact strip_default_prefix_lossless. Qed.
 Print Assumptions C47_default_prefix_lossless.
@@ -38,9 +39,9 @@ Print Assumptions C47_default_prefix_lossless.
    None iff some literal carries an f/F/fr/rf.. prefix) classifies the text, the scanner keeps
    exactly the code characters and moves exactly the literal/comment body characters into
    literals, position by position: no body character is left in the stripped text *)
-Theorem C47_complete_non_fstring : forall fixp code cl,
+Theorem C47_complete_non_fstring : forall fixp fixe code cl,
   ref_classify code = Some cl ->
-  exists items lits, strip fixp code = Done items lits /\ classify lits items = Some cl.
+  exists items lits, strip fixp fixe code = Done items lits /\ classify lits items = Some cl.
 Proof. exact strip_complete_plain. Qed.
 Print Assumptions C47_complete_non_fstring.
 
@@ -54,26 +55,38 @@ Print Assumptions C47_reference_partitions_input.
    FALSE for the code as it is -- finding F21:
    (a) F"{d["k"]}" : only a lower-case f directly before the quote marks an f-string, the
        k of the nested literal stays in the stripped text ... *)
-Theorem C47_complete_fstring_prefix_refuted : kept_at false w_upper_f 6 107%N.
+Theorem C47_complete_fstring_prefix_refuted : forall fixe, kept_at false fixe w_upper_f 6 107%N.
 Proof. exact upper_f_prefix_refuted. Qed.
 Print Assumptions C47_complete_fstring_prefix_refuted.
 
 (* ... and is moved into a literal with the repaired prefix pattern [fF][rR]? *)
-Theorem C47_complete_fstring_prefix_repaired_witness : removed_at true w_upper_f 6 107%N.
+Theorem C47_complete_fstring_prefix_repaired_witness : forall fixe, removed_at true fixe w_upper_f 6 107%N.
 Proof. exact upper_f_prefix_repaired. Qed.
 Print Assumptions C47_complete_fstring_prefix_repaired_witness.
 
 (* (b) f"""{x:#x}<nl>abc""" : '#' in a format spec starts a comment, the literal text abc
        of the next line is scanned as code (with and without the prefix repair) *)
-Theorem C47_complete_format_spec_hash_refuted : forall fixp, kept_at fixp w_spec_hash 11 97%N.
+Theorem C47_complete_format_spec_hash_refuted : forall fixp fixe, kept_at fixp fixe w_spec_hash 11 97%N.
 Proof. exact spec_hash_refuted. Qed.
 Print Assumptions C47_complete_format_spec_hash_refuted.
 
 (* (c) a = f"{x:'^9}"<nl>b = 'lit' : a quote used as fill character opens a literal, the
        body of the later literal 'lit' stays in the stripped text *)
-Theorem C47_complete_format_spec_quote_refuted : forall fixp, kept_at fixp w_spec_quote 20 108%N.
+Theorem C47_complete_format_spec_quote_refuted : forall fixp fixe, kept_at fixp fixe w_spec_quote 20 108%N.
 Proof. exact spec_quote_refuted. Qed.
 Print Assumptions C47_complete_format_spec_quote_refuted.
+
+(* (d) f'''''''<sp>{}' : seven quotes after f = an empty triple-quoted f-string followed by the
+       plain literal '<sp>{}'; the scanner treats that second literal as an f-string and keeps its
+       braces as code ... *)
+Theorem C47_complete_empty_triple_flag_refuted : forall fixp, kept_at fixp false w_empty_triple 9 123%N.
+Proof. exact empty_triple_flag_refuted. Qed.
+Print Assumptions C47_complete_empty_triple_flag_refuted.
+
+(* ... and not with the repaired flag *)
+Theorem C47_complete_empty_triple_flag_repaired_witness : forall fixp, removed_at fixp true w_empty_triple 9 123%N.
+Proof. exact empty_triple_flag_repaired. Qed.
+Print Assumptions C47_complete_empty_triple_flag_repaired_witness.
 
 (* non-vacuity: x = 'a\'b' + "" # c'  -- the prefix is absent, the reference tokenizer accepts,
    two labels are produced and substituted back *)
@@ -82,7 +95,7 @@ Example C47_nonvacuous :
   occursb default_prefix code = false /\ borderless default_prefix
   /\ (exists cl, ref_classify code = Some cl /\ nth_error cl 7 = Some (39%N, true)
                  /\ nth_error cl 19 = Some (39%N, true) /\ nth_error cl 13 = Some (34%N, false))
-  /\ (exists items lits, strip false code = Done items lits /\ length lits = 2
+  /\ (exists items lits, strip false false code = Done items lits /\ length lits = 2
                          /\ subst_text default_prefix (dict default_prefix lits) 0
                               (render default_prefix items) = Some code).
 Proof.
